@@ -46,6 +46,12 @@ CHECKS = {
  "C20": ("exploration", "bounded-exhaustive program enumeration decided by rustc: every generated receiver of all corpora + a name-clash corpus + generic receivers with must-compile / must-not-bound instantiations + negative capturing-closure crates",
          "rustc", "every receiver generated for the other checks and the clash corpus (50 identifiers x field kinds x configs x six traits, variant names) must compile in a module that imports nothing; generic receivers instantiated so that a missing or a superfluous bound fails the build; capturing closures must be rejected at each callable position",
          "rustc 1.95 is the authority on 'type-checks'; the option space is the generators', not random crates", "DESIGN.md §4 C20"),
+ "C06": ("exploration", "bounded-exhaustive enumeration of DeriveInput items (shape x generics x token-sequence attribute bodies at every position, plus every option-selection declaration) through the six derive functions under catch_unwind",
+         "odometer", "every derive call returns; its output is exactly one impl of the requested trait xor >= 1 compile_error!",
+         "inputs are the items syn accepts as DeriveInput; bound: token sequences <= 2 (quick) / 3 (thorough) over an 11-token alphabet, enums <= 2/3 variants", "DESIGN.md §4 C06"),
+ "C10": ("model_checking", "bounded-exhaustive enumeration of option selections (ordered, every attribute split) and body-rule declarations through the six derive functions; rule-set model predicts accept/reject and diagnostic anchors",
+         "odometer", "impl emitted iff the rule-set model finds no violated rule; otherwise only diagnostics, one inside the anchor tokens of every violated rule of the first failing layer, none elsewhere",
+         "anchors are read from compile_error! token spans; ordered selections <= 3 (quick) / 4 (thorough) of 13 field options, <= 3/4 of 6 variant options, <= 2/3 of 23 container options", "DESIGN.md §4 C10"),
 }
 PENDING = {}
 props = [json.loads(l) for l in open(os.path.join(V, "properties.jsonl"))]
